@@ -256,7 +256,7 @@ def run_case(seed, i, tier):
             p2.signals = [k, k + rng.randint(1, 40)]
         res = run_with(scn, p2)
         account(res, p2, "sigint")
-    if i % 20 == 0:
+    if True:
         cr.sample = {"argv": scn.argv, "sources": descr, "base_steps": n, "policy": plan.policy,
                      "signal_steps_tried": "all 0..N" if not quick else "stratified sample"}
     return cr
